@@ -53,8 +53,18 @@ func Load(repo, tags string, overlay map[string][]byte) (*Program, error) {
 	fset := token.NewFileSet()
 	env := os.Environ()
 	env = append(env, "GOFLAGS=-mod=mod", "GOPROXY=off", "GOWORK=off")
+	// tags is a configuration name: "" (default), a build tag ("debug"), or a
+	// comma-separated list of KEY=VALUE go environment settings ("GOARCH=arm64").
 	var flags []string
-	if tags != "" {
+	if strings.Contains(tags, "=") {
+		for _, kv := range strings.Split(tags, ",") {
+			if strings.HasPrefix(kv, "tags=") {
+				flags = append(flags, "-tags="+strings.TrimPrefix(kv, "tags="))
+			} else {
+				env = append(env, kv)
+			}
+		}
+	} else if tags != "" {
 		flags = append(flags, "-tags="+tags)
 	}
 	cfg := &packages.Config{
